@@ -711,3 +711,55 @@ class RKEndPoint(_RKBase):
 
 
 CONTRACTS += [RKUpdateNodes, RKEndPoint]
+
+
+# ------------------------------------------------------------------------------------------ predictor of the base sweeper
+class Predict(_SweepBase):
+    """Sweeper.predict: f[0] = F(u0, t); 'spread': every node gets a COPY of u0 and F evaluated at the node time; 'copy': copies of
+    u0 and of f[0]; 'zero': zeros; the level is unlocked and marked updated; u[0] itself is never modified"""
+
+    name = 'Sweeper.predict'
+    target = ('pySDC/core/sweeper.py', 'Sweeper.predict')
+    sweeper = GI
+    native = True
+
+    def instances(self, tier):
+        return [dict(M=M, guess=g) for M in self.Ms(tier)[:3] for g in ('spread', 'copy', 'zero')]
+
+    def build(self, inst, mk):
+        cls = cls_of(SW + self.sweeper[0], self.sweeper[1])
+        L = make_level(cls, inst['M'], mk, fill=False, sweeper_params=dict(initial_guess=inst['guess']))
+        L.u[0] = mk.vec('L.u0')
+        st = State(L=L, M=inst['M'], inst=inst, u0=cp(L.u[0]), u0_obj=L.u[0], call=L.sweep.predict)
+        return st
+
+    def snapshot(self, st):
+        return None
+
+    def post(self, st, old, result, exc):
+        L, M, P, sw = st.L, st.M, st.L.prob, st.L.sweep
+        yield 'returns_normally', exc is None
+        if exc is not None:
+            return
+        e0 = P.find_eval(L.f[0])
+        yield 'f0:rhs_at_u0_and_step_start', e0 is not None and bool(veq(e0.u, st.u0)) is True and bool(seq(e0.t, L.time)) is True
+        for m in range(1, M + 1):
+            if st.inst['guess'] in ('spread', 'copy'):
+                yield f'u{m}:copy_of_u0', bool(veq(L.u[m], st.u0)) is True and L.u[m] is not st.u0_obj and all(L.u[m] is not L.u[j] for j in range(m))
+            else:
+                yield f'u{m}:zero', veq(L.u[m], 0)
+            if st.inst['guess'] == 'spread':
+                em = P.find_eval(L.f[m])
+                yield f'f{m}:rhs_at_node_time', em is not None and bool(seq(em.t, L.time + L.dt * sw.coll.nodes[m - 1])) is True and bool(veq(em.u, st.u0)) is True
+            elif st.inst['guess'] == 'copy':
+                yield f'f{m}:copy_of_f0', bool(veq(L.f[m], L.f[0])) is True and L.f[m] is not L.f[0]
+            else:
+                yield f'f{m}:zero', veq(L.f[m], 0)
+        yield 'u0_untouched', L.u[0] is st.u0_obj and bool(veq(L.u[0], st.u0)) is True
+        yield 'unlocked_and_updated', L.status.unlocked is True and L.status.updated is True
+
+    def canary(self, st, old, result, exc):
+        yield 'canary:nodes_alias_u0', st.L.u[1] is st.u0_obj
+
+
+CONTRACTS += [Predict]
